@@ -299,3 +299,40 @@ Proof.
   apply dl_inj in H as [Hk H]. apply dl_inj in H as [-> H]. apply dl_inj in H as [-> ->].
   apply encZ_inj in Hk. subst. repeat split.
 Qed.
+
+(* ---------- 5. the same through UdpClient.update ---------- *)
+
+Lemma client_update_key c now : c_key (fst (client_update c now)) = c_key c.
+Proof. unfold client_update. repeat dif; reflexivity. Qed.
+
+(* update() without a datagram: connection upkeep, then the send part *)
+Lemma client_tick_none e c now :
+  client_tick e c now RxNone =
+    let '(c1, o0) := client_update c now in
+    if status_eqb (c_status c1) DROPPED then (c1, o0)
+    else let '(c2, o) := client_send_part e c1 now in (c2, o0 ++ o).
+Proof.
+  unfold client_tick, client_send_part. destruct (client_update c now) as [c1 o0].
+  dif; [reflexivity|]. cbn [raised existsb].
+  dif; [|rewrite app_nil_r; reflexivity].
+  destruct (build_packet e c1 now) as [c2 pk]. destruct (check_timeout false c2 now) as [c3 o3]. reflexivity.
+Qed.
+
+(* update() that reads a forged datagram from the socket: exactly update() without a datagram,
+   run on the state with stats.dropped + 1 *)
+Lemma C01_update_path_proof : forall e c now d orcs k,
+  c_key c = Some k -> ~ authentic k d ->
+  client_tick e c now (RxDgram d orcs) =
+    let '(c1, o0) := client_update c now in
+    if status_eqb (c_status c1) DROPPED then (c1, o0)
+    else let '(c2, o) := client_send_part e (bump c1) now in (c2, o0 ++ o).
+Proof.
+  intros e c now d orcs k Hk Hn. unfold client_tick, client_send_part.
+  pose proof (client_update_key c now) as Hk1. destruct (client_update c now) as [c1 o0]. cbn [fst] in Hk1.
+  dif; [reflexivity|].
+  rewrite (recv_drop_key c1 now d orcs k) by (try congruence; exact Hn).
+  cbn [filter raised existsb].
+  change (c_last_send (bump c1)) with (c_last_send c1). change (c_send_interval (bump c1)) with (c_send_interval c1).
+  dif; [|rewrite app_nil_r; reflexivity].
+  destruct (build_packet e (bump c1) now) as [c2 pk]. destruct (check_timeout false c2 now) as [c3 o3]. reflexivity.
+Qed.
